@@ -6,6 +6,9 @@ through the real convert_response + update_new_config), inline task execution (s
 After every operation the installed behaviour is *observed*: a probe program is run through the
 real TriggerHandler and the snapshots/metrics it produces are compared with a multiset model.
 """
+import sys
+import threading
+
 from .. import rig, bfs, shims
 from ..drive import Forwarder
 
@@ -74,6 +77,9 @@ def cases(tier, seed):
     # unregister/register on three registrations of one line
     for pair in (['unreg0', 'unreg1'], ['unreg1', 'unreg0'], ['unreg0', 'reg'], ['unreg1', 'unreg2'], ['unreg0', 'unreg0']):
         out.append({'k': 'conc', 'pair': pair, 'bound': 2 if tier == 'quick' else 3})
+    for inner in ('unreg', 'reg'):
+        for outer in ('reg', 'unreg'):
+            out.append({'k': 'reentrant', 'inner': inner, 'outer': outer})
     return out
 
 
@@ -254,9 +260,78 @@ def conc_case(ctx, desc):
         S.explore(make, desc['bound'], ctx, on_exec, max_execs=200000, name=str(desc))
 
 
+def reentrant_case(ctx, desc):
+    """The thread that executes a line of add_custom / remove_custom (every line in turn) uses another handle from there - what a signal
+    handler or a finalizer of the application does. Nothing may wait for itself, and what stays installed is what the handles say."""
+    import deep.config.tracepoint_config as TCm
+    fn = 'add_custom' if desc['outer'] == 'reg' else 'remove_custom'
+    code = getattr(TCm.TracepointConfigService, fn).__code__
+    lines = sorted({ln for _, _, ln in code.co_lines() if ln is not None})
+    ctx.case()
+    for line in lines:
+        w = build_world()
+        for n in range(2):
+            apply(w, ('reg', 'L1', 'snap'), ctx, [])
+        state = {'fired': False, 'exc': None}
+
+        def inner():
+            try:
+                if desc['inner'] == 'unreg':
+                    w.handles[1].unregister()
+                    w.handles[1].unregister()
+                    w.model[1]['alive'] = False
+                else:
+                    apply(w, ('reg', 'L1', 'snap'), ctx, [])
+            except BaseException as e:
+                state['exc'] = e
+
+        def local(frame, event, arg):
+            if event == 'line' and frame.f_lineno == line and not state['fired']:
+                state['fired'] = True
+                sys.settrace(None)
+                inner()
+            return local
+
+        def tracer(frame, event, arg):
+            return local if frame.f_code is code else None
+
+        def body():
+            sys.settrace(tracer)
+            try:
+                if fn == 'add_custom':
+                    apply(w, ('reg', 'L1', 'snap'), ctx, [])
+                else:
+                    w.handles[0].unregister()
+                    w.model[0]['alive'] = False
+            except BaseException as e:
+                state['exc'] = e
+            finally:
+                sys.settrace(None)
+        t = threading.Thread(target=body, name='host-reentrant', daemon=True)
+        t.start()
+        t.join(8)
+        ctx.nt(('reentrant', desc['inner'], desc['outer'], line))
+        if t.is_alive():
+            ctx.violation(f'C13/self-deadlock/{desc["inner"]}-inside-{desc["outer"]}', f'the thread executing line {line} of TracepointConfigService.{fn} used another handle '
+                          f'({desc["inner"]}) from there (a signal handler, a finalizer) and never came back: it waits for a lock it holds itself', desc)
+            return
+        if state['exc'] is not None:
+            ctx.violation(f'C13/reentrant-raised/{type(state["exc"]).__name__}', f'{desc} at line {line}: {state["exc"]!r}', desc)
+            return
+        installed = sorted(t_.actions[0].id for t_ in w.deep.trigger_handler._tp_config)
+        want = sorted(h.id for h, m in zip(w.handles, w.model) if m['alive']) if hasattr(w.handles[0], 'id') else None
+        alive = sum(1 for m in w.model if m['alive'])
+        if len(installed) != alive:
+            ctx.violation(f'C13/reentrant/installed-set/{desc["inner"]}-inside-{desc["outer"]}', f'line {line} of {fn}: {alive} handles are live, the handler acts on {len(installed)} tracepoints', desc)
+            return
+    ctx.outcome(('reentrant', desc['inner'], desc['outer']))
+
+
 def run_case(ctx, desc):
     if desc.get('k') == 'conc':
         return conc_case(ctx, desc)
+    if desc.get('k') == 'reentrant':
+        return reentrant_case(ctx, desc)
     prefix = [tuple(o) for o in desc['prefix']]
     depth = desc.get('depth') or bounds(ctx.tier)['depth']
     failed = set()
